@@ -156,6 +156,15 @@ class PTable(EngineBase):
                     "tid": rng.choice(pool) + 300}
         if r < 0.9:
             return {"ev": "advance", "dt": rng.choice([0.01, 0.5, 3.0])}
+        if prop in ("C01", "C02", "C04") and r < 0.94:
+            # execve() / prctl(PR_SET_NAME): same process, another name
+            return {"ev": "setattr", "pid": pid, "attrs": {
+                "comm": rng.choice(gen.COMMS),
+                "cmdline": "/bin/other\x00"}}
+        if prop == "C02" and r < 0.97:
+            # exit + reap with /proc/<pid> lingering for a moment (every
+            # file below it already ENOENT; issue 2418), gone soon after
+            return {"ev": "halfgone", "pid": pid}
         return {"ev": "setattr", "pid": pid,
                 "attrs": {"ppid": rng.choice(pool + [1])}}
 
@@ -587,7 +596,8 @@ class PTable(EngineBase):
             if len(st["sample"]) < 12:
                 st["sample"].append("%s -> %s" % (
                     json.dumps({a: b for a, b in op.items() if a != "id"}),
-                    (type(out[1]).__name__ if out[0] == "exc"
+                    (type(out[1]).__name__ if out[0] == "exc" or not
+                     isinstance(out[1], (int, float, str, bool, type(None)))
                      else repr(out[1])[:60])))
         for h_ in st["handles"]:
             while h_.cms:
@@ -1115,8 +1125,11 @@ class PTable(EngineBase):
         if kind == "is_running" and out[1] != "no-handle":
             h = st["cur_handle"]
             if out[0] == "exc":
-                self._V(st, "C02.running", ["exception"], "is_running",
-                        "is_running raised %r" % (out[1],))
+                other_ = post.get(h.pid)
+                self._V(st, "C02.running", ["exception", (
+                    "pid_respawned" if other_ is not None and
+                    other_[0] != h.inc else "pid_not_respawned")],
+                    "is_running", "is_running raised %r" % (out[1],))
                 return
             alive_pre = pre.get(h.pid, (None,))[0] == h.inc
             alive_post = post.get(h.pid, (None,))[0] == h.inc
